@@ -10,9 +10,14 @@ and are bounded in the texts they enumerate (a failing row is a genuine countere
 """
 from __future__ import annotations
 
+import sys
+
 from .core import AnalysisError
 from .interp import Obj, Raised, call_function
 from .miniev import Unsupported
+
+if sys.getrecursionlimit() < 12000:
+    sys.setrecursionlimit(12000)      # the evaluator recurses once per nested expression of the interpreted program
 
 
 class Outcome:
@@ -200,3 +205,36 @@ def batch_api(ctx, docs: dict, requests: list, jobs: int | None = None):
         if r[0] == 'analysis-error':
             raise AnalysisError(r[1])
     return out
+
+
+def _compile_one(req):
+    text, flags, custom = req
+    try:
+        return compile_text(_BATCH['ctx'], text, flags, dict(custom) if custom is not None else None, cache=False)
+    except AnalysisError as e:
+        return ('analysis-error', str(e))
+
+
+def prefetch(ctx, texts, flags: int = 0, custom=None, jobs: int | None = None):
+    """Compile many texts on worker processes and put the outcomes into the cache compile_text() reads."""
+    import multiprocessing
+    import os
+    todo = []
+    for t in dict.fromkeys(texts):
+        key = ('e2e', t, flags, repr(sorted(custom.items())) if custom else None)
+        if key not in ctx._cache:
+            todo.append((key, (t, flags, tuple(sorted(custom.items())) if custom else None)))
+    if not todo:
+        return
+    _BATCH['ctx'] = ctx
+    compile_text(ctx, 'a')            # warm the shared tables before forking
+    jobs = jobs or int(os.environ.get('SA_JOBS', '0')) or min(12, os.cpu_count() or 1)
+    if jobs <= 1 or len(todo) < 16:
+        outs = [_compile_one(r) for _, r in todo]
+    else:
+        with multiprocessing.get_context('fork').Pool(jobs) as pool:
+            outs = pool.map(_compile_one, [r for _, r in todo], chunksize=max(1, len(todo) // (jobs * 4)))
+    for (key, _), o in zip(todo, outs):
+        if isinstance(o, tuple) and o and o[0] == 'analysis-error':
+            raise AnalysisError(o[1])
+        ctx._cache[key] = o
